@@ -195,10 +195,12 @@ func (c *Ctx) ruleM2() {
 			switch calleeFull(call) {
 			case "path.Join":
 				els := variadicElems(call.Common().Args[0])
-				for _, e := range els {
-					if s, ok := constString(e); ok && strings.HasPrefix(s, "/orbitdb") {
+				// the first element of the join, when it is a constant rooted path: the printed prefix
+				for i, e := range els {
+					if s, ok := constString(e); ok && strings.HasPrefix(s, "/") && (pp == repoMod+"/address" || strings.HasPrefix(s, "/orb")) {
 						joins[s] = call.Pos()
 					}
+					_ = i
 				}
 			case "strings.TrimPrefix", "strings.HasPrefix":
 				if s, ok := constString(call.Common().Args[1]); ok && strings.Contains(s, "orbitdb") {
